@@ -3,6 +3,7 @@ package model
 import (
 	"strconv"
 	"strings"
+	"unicode"
 )
 
 func isIdent(s string) bool {
@@ -32,7 +33,34 @@ func isDigits(s string) bool {
 	return true
 }
 
+// jsonPointerOK: can part be spelled as a JSON-pointer segment of the grammar ([\pL\pN-_.~:|]+ after ~0/~1 escaping)
+func jsonPointerOK(part string) bool {
+	if part == "" {
+		return false
+	}
+	for _, r := range part {
+		if !(unicode.IsLetter(r) || unicode.IsNumber(r) || strings.ContainsRune("-_.~:|/", r)) {
+			return false
+		}
+	}
+	return true
+}
+
+func RenderJSONPointer(p []string) string {
+	var sb strings.Builder
+	sb.WriteByte('"')
+	for _, x := range p {
+		sb.WriteByte('/')
+		sb.WriteString(strings.ReplaceAll(strings.ReplaceAll(x, "~", "~0"), "/", "~1"))
+	}
+	sb.WriteByte('"')
+	return sb.String()
+}
+
 func renderSel(p []string) string {
+	if !isIdent(p[0]) || strings.Contains(p[0], "/") {
+		return RenderJSONPointer(p)
+	}
 	var sb strings.Builder
 	sb.WriteString(p[0])
 	for _, x := range p[1:] {
